@@ -252,3 +252,19 @@ func (fc *FnCtx) recordedParam(i int, now string) string {
 	}
 	return old
 }
+
+// recordedParamName: the name parameter i of f had on the pinned tree, when no present
+// parameter of f carries that name (used where a callee's contract is evaluated at a call).
+func (eng *Engine) recordedParamName(f *ssa.Function, i int) string {
+	loadLocals()
+	old := localsOnDisk[eng.shortFn(f)]["#param"+itoa(int64(i))]
+	if old == "" || old == "_" {
+		return ""
+	}
+	for _, p := range f.Params {
+		if p.Name() == old {
+			return ""
+		}
+	}
+	return old
+}
